@@ -13,7 +13,8 @@
 from sa.canon import f_show, f_implies, f_counterexample, f_and, f_not, f_atoms, f_eval
 from sa.evalterm import eval_term, Undecidable
 from sa.interp import C
-from .gates import GATES, REQUIRED, facts, expected_success, T
+from .gates import GATES, REQUIRED, facts, expected_success, T, draw_ok
+from sa.canon import f_or
 
 EXPLANATION = (
     "Per-class partial evaluation of Network.perform_action -> HostVector.perform_action; "
@@ -63,17 +64,45 @@ def run(ctx, chk):
                    f"{f_counterexample(f_and([cf.success_F, f_not(GATES[g])]), ('false',))}",
                    cf.d.fi.module.path)
         # ---- forced success
-        exp = expected_success(K)
-        ok = f_implies(exp, cf.success_F)
+        # network-level conditions are C02's subject: here they are taken as *derived* (no
+        # network-level failure exit of the dispatcher is taken), so that C01 judges only the
+        # host-level preconditions and the draw
+        net_fail = [o for o in cf.failure if failure_site(cf, o).endswith("Network.perform_action")
+                    and o.flag("undefined_error") is not True]
+        net_ok = f_not(f_or([o.G for o in net_fail])) if net_fail else ("true",)
+        host_gates = [g for g in REQUIRED[K] if g in ("G5", "G6", "G7", "G8")]
+        exp = f_and([net_ok] + [GATES[g] for g in host_gates])
+        # "... and the random draw succeeds": eliminate the draw atoms existentially (how the draw is
+        # compared with the probability is C07's subject)
+        from sa.canon import f_subst
+        rnd = sorted(a for a in f_atoms(cf.success_F) if "random" in a)
+        S = cf.success_F
+        for a in rnd:
+            S = f_or([f_subst(S, lambda x, a=a: ("true",) if x == a else None),
+                      f_subst(S, lambda x, a=a: ("false",) if x == a else None)])
+        net_ok_e = net_ok
+        for a in rnd:
+            exp = f_or([f_subst(exp, lambda x, a=a: ("true",) if x == a else None),
+                        f_subst(exp, lambda x, a=a: ("false",) if x == a else None)])
+        ok = f_implies(exp, S)
         detail = ""
         if not ok:
             extra = sorted(f_atoms(cf.success_F) - f_atoms(exp))
-            detail = (f"all required gates hold but {K} does not necessarily succeed: "
-                      f"{f_counterexample(f_and([exp, f_not(cf.success_F)]), ('false',))}; "
-                      f"conditions outside the oracle vocabulary: {extra}")
-        chk.ob("C01.forced", f"{K}: required gates imply success", ok, detail,
-               cf.d.fi.module.path)
-        chk.sample({"rule": "C01.forced", "class": K, "required": f_show(exp)[:400]})
+            detail = (f"no network-level failure exit is taken, the host-level preconditions "
+                      f"{host_gates} hold and the draw succeeds, but {K} does not necessarily "
+                      f"succeed: {f_counterexample(f_and([exp, f_not(cf.success_F)]), ('false',))}; "
+                      f"conditions outside the vocabulary: {extra}")
+        chk.ob("C01.forced", f"{K}: host-level preconditions and a successful draw force success",
+               ok, detail, cf.d.fi.module.path)
+        chk.sample({"rule": "C01.forced", "class": K, "host_gates": host_gates})
+        net_gates = [g for g in REQUIRED[K] if g in ("G1", "G2.scan", "G2.exploit", "G3", "G4")]
+        if net_gates:
+            N = f_and([GATES[g] for g in net_gates])
+            okn = f_implies(N, net_ok)
+            chk.ob("C01.forced-net", f"{K}: when the network-level conditions of C02 hold, no "
+                   "network-level failure exit is taken", bool(okn),
+                   "" if okn else f"{f_counterexample(f_and([N, f_not(net_ok)]), ('false',))}",
+                   cf.d.fi.module.path)
         # ---- who writes what
         for o in cf.outcomes:
             succ = o.flag("success") is True
@@ -130,6 +159,13 @@ def run(ctx, chk):
     check_action_routing(ctx, chk)
     chk.assume("granted access level of scenario actions is USER or ROOT (loader guard "
                "VALID_ACCESS_VALUES / generator randint(USER, ROOT+1)); checked in C15/C17")
+
+
+def failure_site(cf, o):
+    for ev in cf.d.summary.events:
+        if ev.kind == "new" and ev.data["obj"] == o.result_t:
+            return ev.func
+    return "?"
 
 
 def check_level(ctx, chk, cf, o, e, lv):
